@@ -11,27 +11,27 @@ import (
 func init() {
 	register(&Rule{
 		ID: "R17.1", Props: []string{"C17"}, Engine: "table (method promotion) + flow",
-		Text: "writes go to the slow / primary backend only and reads start at fast / primary: readCachingBlobAccess declares neither Put nor FindMissing and readFallbackBlobAccess declares no Put, so these are promoted from the embedded BlobAccess, which the constructor initialises from its first parameter; Get/GetFromComposite hand the fast (resp. embedded primary) backend to the replicating read helper; the selector closures are single-shot (the captured replicator is cleared before it is handed out, only on NOT_FOUND) and pass other errors on",
+		Text:  "writes go to the slow / primary backend only and reads start at fast / primary: readCachingBlobAccess declares neither Put nor FindMissing and readFallbackBlobAccess declares no Put, so these are promoted from the embedded BlobAccess, which the constructor initialises from its first parameter; Get/GetFromComposite hand the fast (resp. embedded primary) backend to the replicating read helper; the selector closures are single-shot (the captured replicator is cleared before it is handed out, only on NOT_FOUND) and pass other errors on",
 		Floor: 6, MustExist: true, Run: runR171,
 	})
 	register(&Rule{
 		ID: "R17.3", Props: []string{"C17"}, Engine: "flow + guard",
-		Text: "fallback FindMissing reports exactly what both miss, after repairing: the secondary is asked about exactly the primary's missing set; the set returned is the secondary's answer; the success return is dominated by the nil result of ReplicateMultiple applied to the one-sided difference (primary-missing minus both-missing); a replicator's NOT_FOUND is relabelled INTERNAL",
+		Text:  "fallback FindMissing reports exactly what both miss, after repairing: the secondary is asked about exactly the primary's missing set; the set returned is the secondary's answer; the success return is dominated by the nil result of ReplicateMultiple applied to the one-sided difference (primary-missing minus both-missing); a replicator's NOT_FOUND is relabelled INTERNAL",
 		Floor: 3, MustExist: true, Run: runR173,
 	})
 	register(&Rule{
 		ID: "R17.4", Props: []string{"C17"}, Engine: "order (path automaton)",
-		Text: "limits are paired on every path: concurrencyLimitingBlobReplicator.ReplicateMultiple calls the base only after a successful AcquireSemaphore and releases exactly once on every path after it; queuedBlobReplicator.ReplicateMultiple puts the queue token back exactly once on every path after taking it, calls the base only while holding it, and adds to the existence cache only on the nil edge of the base's result",
+		Text:  "limits are paired on every path: concurrencyLimitingBlobReplicator.ReplicateMultiple calls the base only after a successful AcquireSemaphore and releases exactly once on every path after it; queuedBlobReplicator.ReplicateMultiple puts the queue token back exactly once on every path after taking it, calls the base only while holding it, and adds to the existence cache only on the nil edge of the base's result",
 		Floor: 2, MustExist: true, Run: runR174,
 	})
 	register(&Rule{
 		ID: "R17.5", Props: []string{"C17"}, Engine: "lockstate + order (path automaton)",
-		Text: "deduplication protocol: the in-flight map is accessed only under the replicator's mutex, which is released on every exit and not held while waiting; a caller that registered an entry removes it and stores success (= the copy's error is nil) – both before it closes the finished channel – exactly once, on every path (also when the copy failed); a waiter reads success only after receiving from finished and skips the digest only when success is true – otherwise it retries",
+		Text:  "deduplication protocol: the in-flight map is accessed only under the replicator's mutex, which is released on every exit and not held while waiting; a caller that registered an entry removes it and stores success (= the copy's error is nil) – both before it closes the finished channel – exactly once, on every path (also when the copy failed); a waiter reads success only after receiving from finished and skips the digest only when success is true – otherwise it retries",
 		Floor: 6, MustExist: true, Run: runR175,
 	})
 	register(&Rule{
 		ID: "R17.6", Props: []string{"C17"}, Engine: "flow + lockstate",
-		Text: "the existence cache is fed only by fresh positive answers: existenceCachingBlobAccess.FindMissing asks the backend about exactly the digests the cache does not vouch for, adds to the cache the difference (asked minus reported missing) of that very question, only on the nil edge of the backend's error, and returns the backend's answer; the cache's map and eviction set are accessed under its mutex",
+		Text:  "the existence cache is fed only by fresh positive answers: existenceCachingBlobAccess.FindMissing asks the backend about exactly the digests the cache does not vouch for, adds to the cache the difference (asked minus reported missing) of that very question, only on the nil edge of the backend's error, and returns the backend's answer; the cache's map and eviction set are accessed under its mutex",
 		Floor: 3, MustExist: true, Run: runR176,
 	})
 }
@@ -433,7 +433,7 @@ func runR175(c *Ctx) {
 						return st | 2
 					}
 					if bi.Name() == "close" {
-						if st&1 != 0 && st&(2|4) != (2 | 4) {
+						if st&1 != 0 && st&(2|4) != (2|4) {
 							bad, badPos = "the finished channel is closed before the entry was removed and the outcome stored: a waiter could read a stale outcome, or find the entry again and wait on a closed channel forever", x.Pos()
 						}
 						if st&8 != 0 {
@@ -461,7 +461,7 @@ func runR175(c *Ctx) {
 			return st
 		},
 		AtReturn: func(st int, r *ssa.Return, _ map[int]bool) {
-			if st&1 != 0 && st&(2|4|8) != (2 | 4 | 8) {
+			if st&1 != 0 && st&(2|4|8) != (2|4|8) {
 				bad, badPos = "a path returns after registering an in-flight entry without removing it, storing the outcome and closing the channel: waiters for this object would block forever", r.Pos()
 			}
 		}})
